@@ -92,13 +92,31 @@ def strings(maxtok):
 
 
 def gen_cases(maxtok, variants):
+    ntok = {}
+    for n in range(maxtok, -1, -1):  # fewest tokens that spell the string
+        for tup in itertools.product([t for t, _ in TOKENS], repeat=n):
+            ntok["".join(tup)] = n
     for s in strings(maxtok):
         for ct, _ in CTYPES:
             for cs in CHARSETS:
                 if ct is None and cs is not None:
                     continue
-                for kind, ce in variants:
-                    yield [s, ct, cs, ce, kind]
+                for kind, ce, vmax in variants:
+                    if ntok[s] <= vmax:
+                        yield [s, ct, cs, ce, kind]
+
+
+def _tune_malloc():
+    """harness-side speed-up only (gzip variant): keep zlib's ~270 kB per-call state on the heap instead of
+    mmap/munmap-ing it on every call (page faults are very expensive in forked workers on this machine)"""
+    try:
+        import ctypes
+
+        libc = ctypes.CDLL("libc.so.6")
+        libc.mallopt(-3, 1 << 30)  # M_MMAP_THRESHOLD
+        libc.mallopt(-1, 1 << 30)  # M_TRIM_THRESHOLD
+    except Exception:
+        pass
 
 
 def body_bom(body):
@@ -171,9 +189,22 @@ def make_message(kind, ct, cs, ce):
         hdrs.append((b"content-type", val.encode()))
     if ce:
         hdrs.append((b"content-encoding", ce.encode()))
-    if kind == "response":
-        return http.Response(b"HTTP/1.1", 200, b"OK", http.Headers(hdrs), b"", None, 0.0, 0.0)
-    return http.Request("h", 80, b"POST", b"http", b"h", b"/", b"HTTP/1.1", http.Headers(hdrs), b"", None, 0.0, 0.0)
+    # one real object per kind is re-used (construction runs ~60 us of type checks): everything set_text/get_text
+    # can read - body, headers, trailers - is overwritten here, so no state survives from the previous case
+    m = _TEMPLATES.get(kind)
+    if m is None:
+        if kind == "response":
+            m = http.Response(b"HTTP/1.1", 200, b"OK", http.Headers(), b"", None, 0.0, 0.0)
+        else:
+            m = http.Request("h", 80, b"POST", b"http", b"h", b"/", b"HTTP/1.1", http.Headers(), b"", None, 0.0, 0.0)
+        _TEMPLATES[kind] = m
+    m.data.headers = http.Headers(hdrs)
+    m.data.content = b""
+    m.data.trailers = None
+    return m
+
+
+_TEMPLATES: dict = {}
 
 
 def show(x):
@@ -266,21 +297,27 @@ def chunk_fn(chunk):
 
 
 def run(ctx):
+    _tune_malloc()
     maxtok = ctx.pick(2, 3)
-    # (message kind, content-encoding header present while the text is assigned and read)
-    variants = ctx.pick([["response", None], ["response", "gzip"]],
-                        [["response", None], ["response", "gzip"], ["request", None]])
+    # (message kind, content-encoding header present while the text is assigned and read, max tokens for this variant)
+    variants = ctx.pick([["response", None, 2], ["response", "gzip", 1]],
+                        [["response", None, 3], ["response", "gzip", 3], ["request", None, 3]])
     ctx.bounds = {
         "max_tokens": maxtok,
         "tokens": [n for _, n in TOKENS],
         "content_types": [c for c, _ in CTYPES],
         "charset_parameters": CHARSETS,
-        "message_kind_and_content_encoding": variants,
+        "message_kind_content_encoding_max_tokens": variants,
     }
     cases = list(gen_cases(maxtok, variants))
     ctx.info["distinct_strings"] = len(strings(maxtok))
     ctx.log("%d cases (%d strings)" % (len(cases), ctx.info["distinct_strings"]))
-    par.pmap_tally(chunk_fn, cases, ctx.tally)
+    # quick is ~5 s of CPU: run it in-process (forking the pool costs more than that on a loaded machine);
+    # thorough is dealt to 8 workers, one chunk each
+    if ctx.thorough:
+        par.pmap_tally(chunk_fn, cases, ctx.tally, nchunks=8, nproc=8)
+    else:
+        par.pmap_tally(chunk_fn, cases, ctx.tally, nproc=1)
 
 
 def replay(case, t: Tally, verbose=False):
